@@ -24,10 +24,11 @@ path = "{verif}/replay/src/main.rs"
 [dependencies]
 alpha_g_detector = {{ path = "{os.path.abspath(repo)}/detector" }}
 alpha_g_physics = {{ path = "{os.path.abspath(repo)}/physics", optional = true }}
+uom = {{ version = "0.35.0", optional = true }}
 serde_json = "1"
 crc32c = "0.6.4"
 [features]
-physics = ["alpha_g_physics"]
+physics = ["alpha_g_physics", "uom"]
 [profile.release]
 debug-assertions = true
 overflow-checks = true
@@ -41,15 +42,24 @@ opt-level = 1
     if not os.path.exists(lock):
         shutil.copy(os.path.join(repo, "Cargo.lock"), lock)
     # one target directory per repository path: concurrent checks against different trees must not share a binary
-    env = dict(os.environ, CARGO_NET_OFFLINE="true", CARGO_TARGET_DIR=os.path.join(verif, "work", f"replay-target-{key}"))
-    cmd = ["cargo", "build", "--release", "--offline", "-q"] + (["--features", "physics"] if physics else [])
-    r = subprocess.run(cmd, cwd=wd, env=env, capture_output=True, text=True, timeout=1800)
+    env = dict(os.environ, CARGO_NET_OFFLINE="true", CARGO_TARGET_DIR=os.path.join(verif, "work", f"replay-target-{key}"),
+               VERIF_REPO_DIR=os.path.abspath(repo))
+    # always try the full build (detector + physics) so that the binary does not flip between feature sets; fall back to the
+    # detector-only build when physics does not compile and the caller does not need it
+    exe = os.path.join(env["CARGO_TARGET_DIR"], "release", "verif_replay")
+    r = subprocess.run(["cargo", "build", "--release", "--offline", "-q", "--features", "physics"], cwd=wd, env=env,
+                       capture_output=True, text=True, timeout=3600)
+    if r.returncode == 0:
+        return exe, None
+    if physics:
+        return None, (r.stderr or r.stdout)[-1500:]
+    r = subprocess.run(["cargo", "build", "--release", "--offline", "-q"], cwd=wd, env=env, capture_output=True, text=True, timeout=1800)
     if r.returncode != 0:
         return None, (r.stderr or r.stdout)[-1500:]
-    return os.path.join(env["CARGO_TARGET_DIR"], "release", "verif_replay"), None
+    return exe, None
 
 
-PHYSICS_OPS = {"c09_pad", "c13_ring", "c13_full_ring", "c09_event", "c18_drift", "c08_tables_phys"}
+PHYSICS_OPS = {"c09_pad", "c13_sym", "c13_full_ring", "c09_event", "c10_table", "c18_drift", "event"}
 
 
 def run(repo, verif, prop, checks, seed, tier):
